@@ -615,4 +615,164 @@ example : ∃ fr, playFrame wMark (xmpRestart (wMarkAt 2)) = some fr ∧ Enters 
 example : playFrame wMark (xmpStop (wMarkAt 2)) = some ⟨rcEnd, none, xmpStop (wMarkAt 2)⟩ :=
   C17_stop wMark (wMarkAt 2) rfl (by decide)
 
+/-! ### Histories that contain a player (re)start
+
+`xmp_start_player` may be called again in the middle of a control-call history (after
+`xmp_end_player`, or directly on the playing context) while another sub-song is selected.  It
+re-establishes sequence 0, so the relative and time calls that follow act in sequence 0. -/
+
+/-- the same place in the song: effects of the frame (`read_row`, `play_channel`) may change flow
+variables, speed, tempo or volume afterwards, but not these fields. -/
+def SamePlace (a b : St) : Prop :=
+  a.playing = b.playing ∧ a.pos = b.pos ∧ a.ord = b.ord ∧ a.sequence = b.sequence
+
+/-- **C17_start_player**: whatever state `s` the previous run left behind (any selected sequence
+`N`, any position, any pending flow or reposition, playing or ended), after `xmp_start_player`
+the next frame is row 0, tick 0 of the first order `t` holding a pattern, in sequence 0, with loop
+count 0 (unless that row is the recorded end point with a wrapped visit count of 0); and every
+state at that place is `Steady` in sequence 0 — the hypothesis of the next/prev theorems.
+`1 ≤ speed` is the C16 fact for the scan's record of order `t`. -/
+theorem C17_start_player (m : CMod) (s : St) (t : Int) (k : Nat) (hv : Valid m t) (hk : t = k)
+    (hsk : ∀ j, 0 ≤ j → j < t → Skippable m j) (hfuel : k < 600) (he : m.entry 0 = 0)
+    (hspeed : 1 ≤ (m.infoAt t).speed) :
+    (xmpStartPlayer m s).sequence = 0 ∧ (xmpStartPlayer m s).loopCount = 0 ∧
+    (xmpStartPlayer m s).playing = true ∧
+    ∃ fr, playFrame m (xmpStartPlayer m s) = some fr ∧ fr.rc = 0 ∧
+      (frameInfo m fr.st).pos = t ∧ (frameInfo m fr.st).pattern = m.xxoAt t ∧
+      (frameInfo m fr.st).row = 0 ∧ (frameInfo m fr.st).frame = 0 ∧
+      (frameInfo m fr.st).sequence = 0 ∧
+      (¬(t = (m.seqAt 0).scanOrd ∧ 0 = (m.seqAt 0).scanRow ∧ (m.seqAt 0).scanNum = 0) →
+        (frameInfo m fr.st).loopCount = 0) ∧
+      (∀ s', SamePlace s' fr.st → Steady m s' ∧ s'.sequence = 0 ∧ s'.pos = t) := by
+  rw [xmpStartPlayer_eq m s t k hv hk hsk]
+  obtain ⟨hp0, hpl, hpat, hmk⟩ := hv
+  have hv : Valid m t := ⟨hp0, hpl, hpat, hmk⟩
+  have hne := valid_noend hv
+  have hin : 0 ≤ t ∧ t < m.len := ⟨hp0, hpl⟩
+  refine ⟨rfl, rfl, rfl, ?_⟩
+  by_cases ht0 : t = 0
+  · -- order 0 holds a pattern: no reposition, the frame counter goes from -1 to 0
+    subst ht0
+    have hl : ¬ (m.len ≤ 0) := by omega
+    have hs0 : ¬ (m.infoAt 0).speed = 0 := by omega
+    have hs1 : ¬ (m.infoAt 0).speed ≤ 0 := by omega
+    have hpf : playFrame m (started m s 0) = some ⟨0, none, checkEnd m (startedAt m s 0 0)⟩ := by
+      unfold playFrame
+      simp [started, startedAt, resetFlow, hl, hne, hs0, hs1]
+    obtain ⟨c1, c2, c3, c4, c5, _, _, _, _, c10, _⟩ := checkEnd_fields m (startedAt m s 0 0)
+    have c1 : (checkEnd m (startedAt m s 0 0)).ord = 0 := c1
+    have c2 : (checkEnd m (startedAt m s 0 0)).pos = 0 := c2
+    have c3 : (checkEnd m (startedAt m s 0 0)).row = 0 := c3
+    have c4 : (checkEnd m (startedAt m s 0 0)).frame = 0 := c4
+    have c5 : (checkEnd m (startedAt m s 0 0)).sequence = 0 := c5
+    have c10 : (checkEnd m (startedAt m s 0 0)).playing = true := c10
+    refine ⟨_, hpf, rfl, ?_, ?_, ?_, ?_, ?_, ?_, ?_⟩
+    · simp [frameInfo, c2, hin]
+    · simp [frameInfo, c2, hin]
+    · simp [frameInfo, c3]
+    · simp [frameInfo, c4]
+    · simp [frameInfo, c5]
+    · intro hcond
+      show (checkEnd m _).loopCount = 0
+      rw [checkEnd_loopCount]
+      · rfl
+      · intro ⟨h1, h2, h3⟩
+        exact hcond ⟨h1, h2, h3⟩
+    · intro s' ⟨q1, q2, q3, q4⟩
+      rw [c10] at q1; rw [c2] at q2; rw [c1] at q3; rw [c5] at q4
+      refine ⟨⟨q1, by rw [q2, q3], by rw [q2]; exact hin, by rw [q3]; exact hne, by rw [q4]; decide⟩, q4, q2⟩
+  · -- leading orders without a pattern: `ord = t ≠ pos = 0`, the reposition block enters `t`
+    have hpf := playFrame_enters_skip m (started m s t) 0 t k rfl (by show ¬(m.marker = true ∧ m.xxoAt t = 0xff); exact hne)
+      (by show t ≠ 0; exact ht0) (by show (0 : Int) ≠ -2; decide) hv (Int.le_refl 0) (by omega)
+      hsk (Or.inl rfl) (by show m.entry 0 ≤ 0; omega) hfuel
+    have hen := enters_entered m (started m s t) (started m s t) t 0 (repoEndPoint m (started m s t) 0) hv rfl rfl
+    obtain ⟨c1, c2, _, _, c5, _, _, _, _, c10, _⟩ := checkEnd_fields m
+      (entered m (started m s t) t (repoEndPoint m (started m s t) 0))
+    obtain ⟨e1, e2, e3, _, e5, _, _, _, _, e10, e11, e12⟩ := entered_fields m (started m s t) t
+      (repoEndPoint m (started m s t) 0)
+    refine ⟨_, hpf, rfl, hen.pos, hen.pattern, hen.row, hen.frame, hen.sequence, ?_, ?_⟩
+    · intro hcond
+      show (checkEnd m _).loopCount = 0
+      rw [checkEnd_loopCount]
+      · rw [e10]; rfl
+      · rw [e1, e3, e5, e12]
+        intro ⟨h1, h2, h3⟩
+        apply hcond
+        refine ⟨h1, h2, ?_⟩
+        have hs0 : (started m s t).sequence = 0 := rfl
+        simp only [repoEndPoint, hs0] at h3
+        have hent : (m.seqAt 0).entry = 0 := he
+        have h1' : t = (m.seqAt 0).scanOrd := h1
+        have hgt : ¬ ((0 : Int) > (m.seqAt 0).scanOrd) := by omega
+        simpa [hgt, hent] using h3
+    · intro s' ⟨q1, q2, q3, q4⟩
+      rw [c10, e11] at q1; rw [c2, e2] at q2; rw [c1, e1] at q3; rw [c5, e5] at q4
+      have q1' : s'.playing = true := q1
+      have q4' : s'.sequence = 0 := q4
+      refine ⟨⟨q1', by rw [q2, q3], by rw [q2]; exact hin, by rw [q3]; exact hne, by rw [q4']; decide⟩, q4', q2⟩
+
+/-- **C17 after a player start, relative call**: from the place the restarted player is in,
+`xmp_next_position` moves inside sequence 0 — whatever sub-song `s.sequence` was selected before
+the restart. -/
+theorem C17_next_after_start (m : CMod) (s : St) (t u : Int) (k : Nat) (hv : Valid m t) (hk : t = k)
+    (hsk : ∀ j, 0 ≤ j → j < t → Skippable m j) (hfuel : k < 600) (he : m.entry 0 = 0)
+    (hspeed : 1 ≤ (m.infoAt t).speed)
+    (hnext : t + 1 < m.len) (hu : nextTarget m 0 t = some u) (hM : Member m u 0) :
+    ∃ fr, playFrame m (xmpStartPlayer m s) = some fr ∧ ∀ s', SamePlace s' fr.st →
+      ∃ s1 fr2, xmpNextPosition m s' = some (u, s1) ∧ playFrame m s1 = some fr2 ∧ LandsOn m s' fr2 u 0 := by
+  obtain ⟨_, _, _, fr, hpf, _, _, _, _, _, _, _, hplace⟩ := C17_start_player m s t k hv hk hsk hfuel he hspeed
+  refine ⟨fr, hpf, fun s' hs' => ?_⟩
+  obtain ⟨hst, hq, hp⟩ := hplace s' hs'
+  have := C17_next_inside m s' u hst (by rw [hp]; exact hnext) (by rw [hq, hp]; exact hu) (by rw [hq]; exact hM)
+  rw [hq] at this
+  exact this
+
+/-- **C17 after a player start, time call**: `xmp_seek_time` searches sequence 0 and leaves
+sequence 0 in force. -/
+theorem C17_seek_after_start (m : CMod) (s : St) (t tm : Int) (k i : Nat) (hv : Valid m t) (hk : t = k)
+    (hsk : ∀ j, 0 ≤ j → j < t → Skippable m j) (hfuel : k < 600) (he : m.entry 0 = 0)
+    (hspeed : 1 ≤ (m.infoAt t).speed)
+    (hfind : seekFind m 0 tm m.len.toNat = some i) (hmk : m.marker = true → m.pat ≤ 0xfe) :
+    ∃ fr, playFrame m (xmpStartPlayer m s) = some fr ∧ ∀ s', SamePlace s' fr.st →
+      SeekCand m 0 tm i ∧ ∃ s1, xmpSeekTime m s' tm = some ((i : Int), s1) ∧ s1.sequence = 0 := by
+  obtain ⟨_, _, _, fr, hpf, _, _, _, _, _, _, _, hplace⟩ := C17_start_player m s t k hv hk hsk hfuel he hspeed
+  refine ⟨fr, hpf, fun s' hs' => ?_⟩
+  obtain ⟨hst, hq, _⟩ := hplace s' hs'
+  have hi0 : (0 : Int) ≤ i := by omega
+  obtain ⟨_, hc, _, s1, h1, h2, _⟩ := C17_seek_time m s' tm i hst.playing hst.seqok (by rw [hq]; exact hfind) hmk
+    (by rw [hq, he]; exact ⟨Int.le_refl 0, hi0⟩)
+  rw [hq] at hc h2
+  exact ⟨hc, s1, h1, h2⟩
+
+/-- two sub-songs: orders `[0, 1]`, each pattern jumps back to its own order (harness:
+`H 1 2 2 0 0 0 0 6 125 / O 0 1 / R 4 4 / E 0 3 0 0 0 11 0 0 0 / E 1 3 0 0 0 11 1 0 0`). -/
+def wSub : CMod :=
+  { len := 2, pat := 2, numSeq := 2, xxo := [0, 1], rows := [4, 4], ctl := [0, 1],
+    seqs := [{ entry := 0, scanOrd := 0, scanRow := 0, scanNum := 1 },
+             { entry := 1, scanOrd := 1, scanRow := 0, scanNum := 1 }],
+    info := [{ time := 0 }, { time := 0 }] }
+
+/-- sub-song 1 selected and playing (order 1, row 2), a pattern break pending. -/
+def wSubIn1 : St := { ord := 1, pos := 1, row := 2, frame := 1, sequence := 1, loopCount := 3,
+                      f := { numRows := 4, pbreak := 1 } }
+
+/-- the restarted player is back in sequence 0 … -/
+example : (xmpStartPlayer wSub wSubIn1).sequence = 0 :=
+  (C17_start_player wSub wSubIn1 0 0 (by decide) rfl (by intro j h1 h2; omega) (by decide) (by decide) (by decide)).1
+/-- … `xmp_next_position` from order 0 then stays put (order 1 belongs to sub-song 1) … -/
+example : ((playFrame wSub (xmpStartPlayer wSub wSubIn1)).bind fun fr =>
+    (xmpNextPosition wSub fr.st).map fun r => (r.1, r.2.sequence, r.2.pos)) = some (0, 0, 0) := by decide
+/-- … and `xmp_seek_time(0)` selects order 0 of sequence 0, not order 1 of sub-song 1. -/
+example : ∃ fr, playFrame wSub (xmpStartPlayer wSub wSubIn1) = some fr ∧ ∀ s', SamePlace s' fr.st →
+    SeekCand wSub 0 0 0 ∧ ∃ s1, xmpSeekTime wSub s' 0 = some (((0 : Nat) : Int), s1) ∧ s1.sequence = 0 :=
+  C17_seek_after_start wSub wSubIn1 0 0 0 0 (by decide) rfl (by intro j h1 h2; omega) (by decide) (by decide)
+    (by decide) (by decide) (by decide)
+/-- in `wMark` the restarted player's `xmp_next_position` passes the skip marker and enters order 2 of sequence 0,
+also when sub-song 1 (order 4) was playing before. -/
+example : ∃ fr, playFrame wMark (xmpStartPlayer wMark { wMarkAt 4 with sequence := 1 }) = some fr ∧
+    ∀ s', SamePlace s' fr.st → ∃ s1 fr2, xmpNextPosition wMark s' = some (2, s1) ∧ playFrame wMark s1 = some fr2 ∧
+      LandsOn wMark s' fr2 2 0 :=
+  C17_next_after_start wMark _ 0 2 0 (by decide) rfl (by intro j h1 h2; omega) (by decide) (by decide) (by decide)
+    (by decide) (by decide) (by decide)
+
 end Xmp.Control
